@@ -200,9 +200,6 @@ class SNum(CantSympify):
     def __int__(self):
         self._no("__int__")
 
-    def __array__(self, *a, **k):
-        self._no("__array__")
-
     def __index__(self):
         if self.v.kind not in ("int", "bool"):
             raise TypeError("'%s' object cannot be interpreted as an integer" % self.tag.__name__)
